@@ -50,6 +50,8 @@ pub enum Fault {
     ErrorReplies = 5,
     /// close the socket when the next message arrives
     CloseOnMessage = 6,
+    /// established sessions stop reading from their socket for as long as the fault is set
+    StallReads = 7,
 }
 
 #[derive(Clone, Debug)]
@@ -658,6 +660,9 @@ impl Session {
                     Ok(Some(m)) => break m,
                     Ok(None) => {}
                     Err(_) => break 'outer,
+                }
+                while self.fault() == Fault::StallReads as u8 {
+                    tokio::time::sleep(Duration::from_millis(5)).await;
                 }
                 match sock.read(&mut buf).await {
                     Ok(0) | Err(_) => break 'outer,
